@@ -351,3 +351,52 @@ package gabi
 //@   requires builders[0] is *DisclosureProofBuilder ==> builders[0].(*DisclosureProofBuilder) != nil && len(builders[0].(*DisclosureProofBuilder).attributes) > 0 && builders[0].(*DisclosureProofBuilder).attributes[0] != nil
 //@   ensures message: err == nil ==> result0.Context == context && result0.Nonce == nonce && result0.IsSignatureSession == signature && result0.UserChallengeInput == hashInput && result0.UserResponse != nil && result1 != nil
 //@   mustfail canary: err != nil
+
+//@ # ---- selective disclosure, prover side (C04) ----
+//@ func getUndisclosedAttributes
+//@   property C04
+//@   safety
+//@   requires numAttributes >= 0 && numAttributes <= 1048576 && forall k in 0..len(disclosedAttributes) :: 0 <= disclosedAttributes[k] && disclosedAttributes[k] < numAttributes
+//@   ensures hidden: forall j in 0..len(result) :: 0 <= result[j] && result[j] < numAttributes && forall k in 0..len(disclosedAttributes) :: disclosedAttributes[k] != result[j]
+//@   ensures complete: forall idx in 0..numAttributes :: (forall k in 0..len(disclosedAttributes) :: disclosedAttributes[k] != idx) ==> exists j in 0..len(result) :: result[j] == idx
+//@   ensures fresh: fresh(result)
+//@   modifies nothing
+//@   loop 0 invariant 0 <= $i && $i <= len(disclosedAttributes) && fresh(check) && len(check) == numAttributes && (forall k in 0..$i :: check[disclosedAttributes[k]]) && (forall idx in 0..numAttributes :: check[idx] ==> exists k in 0..$i :: disclosedAttributes[k] == idx)
+//@   loop 0 modifies elems(check)
+//@   loop 1 invariant 0 <= $i && $i <= len(check) && fresh(r) && len(check) == numAttributes && (forall k in 0..len(disclosedAttributes) :: check[disclosedAttributes[k]]) && (forall idx in 0..numAttributes :: check[idx] ==> exists k in 0..len(disclosedAttributes) :: disclosedAttributes[k] == idx)
+//@   loop 1 invariant (forall j in 0..len(r) :: 0 <= r[j] && r[j] < $i && !check[r[j]]) && (forall idx in 0..$i :: !check[idx] ==> exists j in 0..len(r) :: r[j] == idx)
+//@   loop 1 modifies elems(r)
+
+//@ func (*DisclosureProofBuilder).TimestampRequestContributions
+//@   property C04
+//@   safety
+//@   requires d != nil && d.randomizedSignature != nil && forall k in 0..len(d.disclosedAttributes) :: 0 <= d.disclosedAttributes[k] && d.disclosedAttributes[k] < len(d.attributes)
+//@   ensures shape: result0 == d.randomizedSignature.A && fresh(result1) && len(result1) == len(d.attributes)
+//@   ensures chosen: forall k in 0..len(d.disclosedAttributes) :: result1[d.disclosedAttributes[k]] == d.attributes[d.disclosedAttributes[k]]
+//@   ensures hiddenzero: forall j in 0..len(result1) :: (forall k in 0..len(d.disclosedAttributes) :: d.disclosedAttributes[k] != j) ==> result1[j] != nil && fresh(result1[j]) && val(result1[j]) == 0
+//@   modifies nothing
+//@   loop 0 invariant 0 <= i && i <= len(d.attributes) && fresh(disclosed) && len(disclosed) == len(d.attributes) && zero != nil && fresh(zero) && val(zero) == 0 && forall j in 0..i :: disclosed[j] == zero
+//@   loop 0 modifies elems(disclosed)
+//@   loop 1 invariant 0 <= $i && $i <= len(d.disclosedAttributes) && fresh(disclosed) && len(disclosed) == len(d.attributes) && zero != nil && fresh(zero) && val(zero) == 0
+//@   loop 1 invariant (forall k in 0..$i :: disclosed[d.disclosedAttributes[k]] == d.attributes[d.disclosedAttributes[k]]) && (forall j in 0..len(disclosed) :: (forall k in 0..$i :: d.disclosedAttributes[k] != j) ==> disclosed[j] == zero)
+//@   loop 1 modifies elems(disclosed)
+
+//@ pred msgval(x, pk) := ite(bitlen(val(x)) > pk.Params.Lm, os2ip(sha256(i2osp(abs(val(x))))), val(x))
+//@ func (*DisclosureProofBuilder).CreateProof
+//@   property C04
+//@   safety
+//@   requires d != nil && challenge != nil && wfpk(d.pk) && d.randomizedSignature != nil && d.randomizedSignature.E != nil && d.randomizedSignature.V != nil && d.eCommit != nil && d.vCommit != nil
+//@   requires forall k in 0..len(d.undisclosedAttributes) :: 0 <= d.undisclosedAttributes[k] && d.undisclosedAttributes[k] < len(d.attributes) && d.attributes[d.undisclosedAttributes[k]] != nil && d.attrRandomizers[d.undisclosedAttributes[k]] != nil
+//@   requires forall k in 0..len(d.disclosedAttributes) :: 0 <= d.disclosedAttributes[k] && d.disclosedAttributes[k] < len(d.attributes)
+//@   requires d.nonrevBuilder == nil && d.rpStructures == nil
+//@   ensures kind: result is *ProofD && result.(*ProofD) != nil && result.(*ProofD).C == challenge && result.(*ProofD).A == d.randomizedSignature.A && result.(*ProofD).NonRevocationProof == nil && result.(*ProofD).RangeProofs == nil
+//@   ensures disclosed: forall k in 0..len(d.disclosedAttributes) :: in(result.(*ProofD).ADisclosed, d.disclosedAttributes[k]) && result.(*ProofD).ADisclosed[d.disclosedAttributes[k]] == d.attributes[d.disclosedAttributes[k]]
+//@   ensures onlychosen: forall idx in dom(result.(*ProofD).ADisclosed) :: exists k in 0..len(d.disclosedAttributes) :: d.disclosedAttributes[k] == idx
+//@   ensures responses: forall k in 0..len(d.undisclosedAttributes) :: in(result.(*ProofD).AResponses, d.undisclosedAttributes[k]) && result.(*ProofD).AResponses[d.undisclosedAttributes[k]] != nil && val(result.(*ProofD).AResponses[d.undisclosedAttributes[k]]) == val(d.attrRandomizers[d.undisclosedAttributes[k]]) + prod(val(challenge), msgval(d.attributes[d.undisclosedAttributes[k]], d.pk))
+//@   ensures onlyhidden: forall idx in dom(result.(*ProofD).AResponses) :: exists k in 0..len(d.undisclosedAttributes) :: d.undisclosedAttributes[k] == idx
+//@   modifies nothing
+//@   loop 0 invariant 0 <= $i && $i <= len(d.undisclosedAttributes) && aResponses != nil && fresh(aResponses)
+//@   loop 0 invariant (forall k in 0..$i :: in(aResponses, d.undisclosedAttributes[k]) && aResponses[d.undisclosedAttributes[k]] != nil && fresh(aResponses[d.undisclosedAttributes[k]]) && val(aResponses[d.undisclosedAttributes[k]]) == val(d.attrRandomizers[d.undisclosedAttributes[k]]) + prod(val(challenge), msgval(d.attributes[d.undisclosedAttributes[k]], d.pk))) && (forall idx in dom(aResponses) :: exists k in 0..$i :: d.undisclosedAttributes[k] == idx)
+//@   loop 0 modifies mapof(aResponses), onlyfresh("BV")
+//@   loop 1 invariant 0 <= $i && $i <= len(d.disclosedAttributes) && aDisclosed != nil && fresh(aDisclosed) && (forall k in 0..$i :: in(aDisclosed, d.disclosedAttributes[k]) && aDisclosed[d.disclosedAttributes[k]] == d.attributes[d.disclosedAttributes[k]]) && (forall idx in dom(aDisclosed) :: exists k in 0..$i :: d.disclosedAttributes[k] == idx)
+//@   loop 1 modifies mapof(aDisclosed)
